@@ -37,8 +37,11 @@ class Unsupported(Exception):
 class Arr1:
     """1-d integer array: get(i) and length (z3 terms)."""
 
-    def __init__(self, get, length):
+    def __init__(self, get, length, parent=None, lo=None):
         self.get, self.length = get, length
+        # a[lo:hi] views remember the array they are cut from, so that quantified facts about them can be stated over the indices of the parent
+        # (`parent[q]`, lo <= q < hi) instead of `parent[i + lo]`: solvers match the former, not the latter
+        self.parent, self.lo = parent, lo
 
 
 class Arr2:
@@ -113,6 +116,14 @@ class ImageSet:
 
     def __init__(self, arr, st):
         self.arr, self.st = arr, st
+
+
+class FilterSeq:
+    """[x for x in base if cond(x)] over a 1-d integer array: the elements base[i], 0 <= i < len(base), with cond(base[i]), in order.  `cond` is a closure
+    over the environment at the time the comprehension was evaluated (Python builds the list eagerly, so later assignments do not change it)."""
+
+    def __init__(self, base, cond, text=""):
+        self.base, self.cond, self.text = base, cond, text
 
 
 class Opaque:
@@ -316,6 +327,23 @@ class ExprEval:
             parts.append({ast.Lt: a < b, ast.LtE: a <= b, ast.Gt: a > b, ast.GtE: a >= b, ast.Eq: a == b, ast.NotEq: a != b}[type(op)])
         return z3.And(*parts) if len(parts) > 1 else parts[0]
 
+    def ev_ListComp(self, n):
+        # [x for x in SEQ if COND(x)]  (one generator, element == loop variable)
+        if len(n.generators) != 1 or not isinstance(n.elt, ast.Name) or not isinstance(n.generators[0].target, ast.Name) or n.elt.id != n.generators[0].target.id:
+            raise Unsupported("list comprehension of this shape")
+        gen = n.generators[0]
+        base = self.ev(gen.iter)
+        if not isinstance(base, Arr1):
+            raise Unsupported("list comprehension over a non-array")
+        env0, eng, var, ifs = dict(self.env), self.engine, gen.target.id, list(gen.ifs)
+
+        def cond(x):
+            sub = ExprEval(dict(env0, **{var: x}), None)
+            return z3.And(*[as_bool(sub.ev(c)) for c in ifs]) if ifs else z3.BoolVal(True)
+
+        cond(fresh("probe"))   # raises Unsupported now if the filter is outside the subset
+        return FilterSeq(base, cond, ast.unparse(n)[:80])
+
     def ev_IfExp(self, n):
         return z3.If(as_bool(self.ev(n.test)), as_int(self.ev(n.body)), as_int(self.ev(n.orelse)))
 
@@ -372,9 +400,15 @@ class ExprEval:
                 if isinstance(iv, tuple):
                     return tuple(base.get(as_int(x)) for x in iv)
             if isinstance(s0, ast.Slice):
-                if s0.upper is not None or s0.step is not None:
-                    raise Unsupported("slice with upper bound")
+                if s0.step is not None:
+                    raise Unsupported("slice with step")
                 lo = as_int(self.ev(s0.lower)) if s0.lower is not None else z3.IntVal(0)
+                if s0.upper is not None:
+                    # a[lo:hi]: Python clips out-of-range bounds silently; the engine demands 0 <= lo <= hi <= len(a) instead (obligation), so the view is exact
+                    hi = as_int(self.ev(s0.upper))
+                    if self.engine is not None:
+                        self.engine.emit("slice-bounds[%s]" % ast.unparse(n)[:50], self.engine.curpath, z3.And(0 <= lo, lo <= hi, hi <= base.length), n.lineno)
+                    return Arr1(lambda i, b=base, lo=lo: b.get(i + lo), hi - lo, parent=base, lo=lo)
                 return Arr1(lambda i, b=base, lo=lo: b.get(i + lo), base.length - lo)
             return base.get(as_int(self.ev(s0)))
         if isinstance(base, Small):
@@ -438,6 +472,15 @@ class ExprEval:
                 return as_int(v.shape[0])
             if isinstance(v, TripleRel):
                 return v.length
+            if isinstance(v, FilterSeq) and self.engine is not None:
+                # only what the code under contract observes of the length: 0 <= L <= len(base), and L == 0 iff no element passes the filter
+                L, q = fresh("flen"), fresh("q")
+                if v.base.parent is not None:
+                    none = z3.ForAll([q], z3.Implies(z3.And(v.base.lo <= q, q < v.base.lo + v.base.length), z3.Not(v.cond(as_int(v.base.parent.get(q))))))
+                else:
+                    none = z3.ForAll([q], z3.Implies(z3.And(0 <= q, q < v.base.length), z3.Not(v.cond(as_int(v.base.get(q))))))
+                self.engine.curpath = self.engine.curpath + [L >= 0, L <= v.base.length, (L == 0) == none]
+                return L
             raise Unsupported("len of %s" % type(v).__name__)
         if name == "list" and len(n.args) == 1:
             v = self.ev(n.args[0])
@@ -479,6 +522,13 @@ class ExprEval:
             lo, hi, lam = n.args
             if not isinstance(lam, ast.Lambda) or len(lam.args.args) != 1:
                 raise Unsupported("quantifier needs a one-argument lambda")
+            lov, hiv = z3.simplify(as_int(self.ev(lo))), z3.simplify(as_int(self.ev(hi)))
+            if z3.is_int_value(lov) and z3.is_int_value(hiv) and hiv.as_long() - lov.as_long() <= 4:
+                # literal small range: expand (keeps the formulas free of needless quantifier alternation)
+                parts = [as_bool(ExprEval(dict(self.env, **{lam.args.args[0].arg: z3.IntVal(t)}), self.engine).ev(lam.body)) for t in range(lov.as_long(), hiv.as_long())]
+                if name == "forall":
+                    return z3.And(*parts) if parts else z3.BoolVal(True)
+                return z3.Or(*parts) if parts else z3.BoolVal(False)
             v = fresh(lam.args.args[0].arg)
             sub = ExprEval(dict(self.env, **{lam.args.args[0].arg: v}), self.engine)
             body = as_bool(sub.ev(lam.body))
@@ -644,6 +694,8 @@ class Engine:
             return TripleRel(z3.Const(name + "_rel", ABB), n)
         if kind == "tuple":
             return tuple(z3.Int("%s_%d" % (name, i)) for i in range(decl[1]))
+        if kind == "intlist":
+            return IntSet(z3.Const(name + "_set", AS))
         raise Unsupported("argument kind %s" % kind)
 
     # -- statements -----------------------------------------------------------------------------
@@ -689,6 +741,11 @@ class Engine:
                     new = z3.Store(rel.has, d, z3.Store(row, a, z3.Store(z3.Select(row, a), b, z3.BoolVal(True))))
                     env = dict(env)
                     env[st.value.func.value.value.id] = TripleRel(new, rel.length)
+                    return [(env, self.curpath)]
+                if isinstance(lst, IntSet) and not isinstance(item, tuple) and isinstance(st.value.func.value, ast.Name):
+                    # list of ints declared as "intlist": abstracted to the set of its entries (order and multiplicity dropped)
+                    env = dict(env)
+                    env[st.value.func.value.id] = IntSet(z3.Store(lst.has, as_int(item), z3.BoolVal(True)))
                     return [(env, self.curpath)]
                 if not isinstance(lst, PairList) or not (isinstance(item, tuple) and len(item) == 2):
                     raise Unsupported("append on this container")
@@ -756,6 +813,10 @@ class Engine:
                 return Opaque("join")
             if isinstance(a, Arr2) and isinstance(b, Arr2):
                 return Arr2(z3.If(c, a.term, b.term), a.shape)
+            if isinstance(a, IntSet) and isinstance(b, IntSet):
+                return IntSet(z3.If(c, a.has, b.has))
+            if isinstance(a, FilterSeq) or isinstance(b, FilterSeq):
+                raise Unsupported("join of filtered lists")
             if isinstance(a, Arr1) and isinstance(b, Arr1):
                 return Arr1(lambda i, a=a, b=b: z3.If(c, as_int(a.get(i)), as_int(b.get(i))), z3.If(c, a.length, b.length))
             if isinstance(a, Small) and isinstance(b, Small) and a.shape == b.shape:
@@ -969,6 +1030,16 @@ class Engine:
                 env = dict(env)
                 env[sname] = IntSet(new)
                 return [(env, path)]
+            if isinstance(itv, FilterSeq):
+                # for x in [y for y in base if cond(y)]  ==  for k in range(len(base)): x = base[k]; if cond(x): body      (cut at the invariant, index _k)
+                if spec is None:
+                    raise Unsupported("loop %d of %s (over a filtered list) has no invariant" % (ordinal, self.qual))
+                return self.cut_loop(st, env, path, spec, itv.base.length, "filter", itv)
+            if isinstance(itv, Arr1) and spec is not None:
+                return self.cut_loop(st, env, path, spec, itv.length, "array", itv)
+            if isinstance(itv, Arr1) and self.opaque_ok:
+                # loop over an array without an invariant (block mode): everything its body may assign becomes unconstrained
+                itv = Opaque("loop without invariant")
             if isinstance(itv, Opaque) and self.opaque_ok:
                 # loop over an unknown sequence: everything its body may assign becomes unconstrained (covers zero iterations as well)
                 env = dict(env)
@@ -1008,16 +1079,24 @@ class Engine:
                     out.append((e, p))
                 return out
             raise Unsupported("loop %d of %s has no invariant" % (ordinal, self.qual))
+        return self.cut_loop(st, env, path, spec, n, mode, arr)
+
+    def cut_loop(self, st, env, path, spec, n, mode, arr):
         # cut at the invariant
         assigned = sorted(self.assigned_names(st.body) - self.target_names(st.target))
-        ivar_name = spec.get("index", None)
         k = fresh("k")
         inv = spec["invariant"]
+
+        view = arr.base if mode == "filter" else (arr if mode == "array" else None)
+        off = view.lo if (view is not None and getattr(view, "parent", None) is not None) else z3.IntVal(0)
 
         def bind(e, kv):
             e = dict(e)
             e["_k"] = kv
+            e["_ka"] = kv + off        # index into the parent array when the loop runs over a slice a[lo:hi] (otherwise == _k)
             e["_n"] = n
+            for name, v in self.entry_env.items():
+                e.setdefault("old_" + name, v)      # values at function entry, as in `ensures`
             return e
 
         # entry
@@ -1030,6 +1109,15 @@ class Engine:
         p2 = path + [k >= 0, k < n] + self.assume_all(inv, bind(env2, k))
         if mode == "range":
             env_body = self.assign(st.target, k, env2, p2, st.lineno)
+        elif mode == "filter":
+            item = as_int(arr.base.get(k))
+            passes = arr.cond(item)
+            # the element is filtered out: the state is unchanged and the invariant must hold for _k + 1
+            self.emit_all("inv-step[filtered-out]", p2 + [z3.Not(passes)], inv, bind(env2, k + 1), st.lineno)
+            p2 = p2 + [passes]
+            env_body = self.assign(st.target, item, env2, p2, st.lineno)
+        elif mode == "array":
+            env_body = self.assign(st.target, as_int(arr.get(k)), env2, p2, st.lineno)
         else:
             env_body = self.assign(st.target, (k, arr.get(k)), env2, p2, st.lineno)
         self.emit("cover[loop-body]", p2, z3.BoolVal(True), st.lineno, expect_sat=True)
@@ -1151,6 +1239,19 @@ class Engine:
 # ---------------------------------------------------------------------------------------------
 
 
+def _has_quantifier(t):
+    seen, todo = set(), [t]
+    while todo:
+        x = todo.pop()
+        if x.get_id() in seen:
+            continue
+        seen.add(x.get_id())
+        if z3.is_quantifier(x):
+            return True
+        todo.extend(x.children())
+    return False
+
+
 def discharge(ob, timeout_ms=10000):
     """Returns (verdict, backend, seconds, model-or-None).
     verdict: proved / refuted / unknown; for expect_sat (vacuity / cover) obligations: proved (sat), vacuous (unsat), cover-unknown.
@@ -1176,10 +1277,25 @@ def discharge(ob, timeout_ms=10000):
         return "proved", "z3", dt, None
     if r == "sat":
         return "refuted", "z3", dt, model
+    # relevance filtering: hypotheses may be dropped soundly (a goal proved from fewer hypotheses holds with all of them); the path condition is in program
+    # order, so the most recent hypotheses (loop invariant at _k, guards, callee postconditions) come last.  Only `unsat` is accepted from a subset.
+    n = len(ob.assumptions)
+    ground = [a for a in ob.assumptions if not _has_quantifier(a)]
+    for m in (4, 8, 12, 16):
+        if m >= n:
+            break
+        recent = ob.assumptions[-m:]
+        sub = z3.Solver()
+        for a in ground + [a for a in recent if _has_quantifier(a)]:
+            sub.add(a)
+        sub.add(z3.Not(ob.goal))
+        r, _ = smt.z3_check(sub, min(timeout_ms, 5000) / 1000.0)
+        if r == "unsat":
+            return "proved", "z3(ground + last %d of %d hypotheses)" % (m, n), time.time() - t0, None
     # second opinion: cvc5 (default, then enumerative instantiation); generous wall-clock budget: these queries take 2-20 s on an idle machine and
     # the budget must not flip the verdict when all cores are busy
     for opts in ([], ["--enum-inst"], ["--full-saturate-quant"]):
-        r, _ = smt.cvc5_check(s, 30 * timeout_ms / 1000.0, opts)
+        r, _ = smt.cvc5_check(s, 8 * timeout_ms / 1000.0, opts)
         if r == "unsat":
             return "proved", "cvc5" + ("".join(opts)), time.time() - t0, None
         if r == "sat":
